@@ -40,4 +40,14 @@ TEXTS = {
         "level_text": "6e3 (quick) to 3e5 (thorough) sets of 1..8 boxes from integer-grid, axis-aligned, rotated and near-degenerate families. Shares are compared per box with the reference, range-checked and re-computed under a random permutation. A panic below exclusively_owned_areas is caught and reported as a violation unless it is exactly the recorded known finding (panic inside geo-0.27 boolean ops AND a near-coincident edge pair in the input).",
         "level_note": "Trusts the f64 reference (a dense-sampling arbiter runs on every disagreement and on every 50th case). The geo-0.27 sweep-line panic on near-coincident edges is a recorded, unrepaired finding (known_findings.json).",
     },
+    "C17": {
+        "technique": "runtime reference-model monitor + permutation differential: all permutations of small result streams, 50 random permutations of larger ones",
+        "level_text": "6e3 (quick) to 4e5 (thorough) generated streams over <= 6 queries x <= 6 tracks x 0..5 distances per pair; TopN, BestFit, Hungarian and Visual voting outputs are checked against references written from the statement and against their own outputs on permuted streams (every 4th stream is small and run in all of its <= 5040 orders).",
+        "level_note": "Streams are sampled; permutations of small streams are enumerated completely. Near-ties (1e-6 relative) downgrade a comparison and are counted.",
+    },
+    "C07": {
+        "technique": "runtime differential oracle: textbook f64 Kalman filter in lock-step (one-step differential restarted from the library's hooked state + free-running), SPD / symmetry invariants at every step, exhaustive grid for the cost conversions",
+        "level_text": "400 (quick) to 2e4 (thorough) trajectories of 50..600 steps with random predict/update patterns, weights 0.2x..5x default, coordinates to 1e4, heights to 1e3; every step of the box, point and vector filters is compared with the reference (mean, full covariance through the guarded accessor), distance() is compared with the f64 Mahalanobis distance of the library's own state, and the direct/inverted cost identity is checked on a 1e4-point grid including all gates +-1 ulp.",
+        "level_note": "Trusts the f64 reference and the noise model read from the source; one-step tolerances have >=10x head-room over the largest deviation observed.",
+    },
 }
